@@ -220,7 +220,9 @@ def arburg(X, order, criteria=None):
     if criteria:
         from spectrum import Criteria
         crit = Criteria(name=criteria, N=N)
-        crit.data = rho
+        # order 0: seed with the criterion value of the raw power (not with the
+        # power itself, which is not comparable with a criterion value)
+        crit(rho=rho, k=0)
         logging.debug('Step {}. old criteria={} new one={}.  rho={}'.format(
                 0, crit.old_data, crit.data, rho))
 
